@@ -773,7 +773,9 @@ func (c *seqCtx) doBucket(v *view, h *handle, n *node, name string) {
 	c.checkHandle(v, "Bucket", b, validName(name) && n.sub[name] != nil, append(append([]string(nil), h.path...), name), id)
 }
 
-func (c *seqCtx) doGet(v *view, h *handle, n *node) { c.getKey(v, h, n, c.pickKey(v.s, n, h.path, false)) }
+func (c *seqCtx) doGet(v *view, h *handle, n *node) {
+	c.getKey(v, h, n, c.pickKey(v.s, n, h.path, false))
+}
 
 func (c *seqCtx) getKey(v *view, h *handle, n *node, key []byte) {
 	c.emit("%s%d.Get(%s)", v.pfx, h.id, qb(key))
